@@ -103,13 +103,13 @@ LeavesRich ==
   {Raw("str", t) : t \in T3} \cup {Orig(t) : t \in T3} \cup SmsLeaves(T2, 2)
 
 LeavesSlim ==
-  IF Scope \notin {"c01","c02","c07"} THEN {} ELSE
+  IF Scope \notin {"c01","c02","c07","c17"} THEN {} ELSE
   {Raw("str", t) : t \in TSlim} \cup {Orig(t) : t \in TSlim}
   \cup SmsLeaves({<<cA, NL, cA>>, <<cA, cA>>}, 1)
 
 TextLen(t) == Len(t.b)
 
-Pairs ==  IF Scope \notin {"c01","c02","c07"} THEN {} ELSE
+Pairs ==  IF Scope \notin {"c01","c02","c07","c17"} THEN {} ELSE
  {CC(<<a, b>>) : a \in LeavesSlim, b \in LeavesSlim}
 
 ReplOverLeaf1 ==
@@ -119,7 +119,7 @@ ReplOverLeaf1 ==
                  \cup SmsLeaves({<<cA, NL, cA>>, <<cA, cA, cA>>}, 2)}
 
 ReplOverLeaf2 ==
-  IF Scope \notin {"c01","c02","c07"} THEN {} ELSE
+  IF Scope \notin {"c01","c02","c07","c17"} THEN {} ELSE
   UNION {{Replace(x, r) : r \in Repls2(TextLen(x))} :
            x \in {Orig(t) : t \in {<<cA, NL, cA>>, <<cA, cSC, cA>>, <<NL, cA>>, <<cA, NL>>}}
                  \cup {Raw("str", <<cA, NL, cA>>)}}
@@ -135,7 +135,7 @@ ReplOverPair ==
            x \in SlimPairs}
 
 Wrapped ==
-  IF Scope \notin {"c01","c02","c07"} THEN {} ELSE
+  IF Scope \notin {"c01","c02","c07","c17"} THEN {} ELSE
   LET X == SlimPairs \cup {Replace(Orig(<<cA, NL, cA>>), <<Repl(1, 2, <<cX>>)>>)}
                \cup {Orig(t) : t \in TSlim}
   IN {Cached(x) : x \in X} \cup {Box(x) : x \in X}
@@ -149,7 +149,7 @@ Wrapped ==
 (* break inside or at the edge of one of three small pieces                 *)
 PieceTexts == {<<cA>>, <<NL>>, <<NL, 98>>, <<cA, NL>>, <<98>>}
 ManyPieces ==
-  IF Scope \notin {"c01","c02","c07"} THEN {} ELSE
+  IF Scope \notin {"c01","c02","c07","c17"} THEN {} ELSE
   {Cached(CC(<<Raw("str", x), Raw("str", y), Raw("str", z)>>)) :
      x \in PieceTexts, y \in PieceTexts, z \in PieceTexts}
   \cup {Cached(CC(<<Raw("str", x), Orig(y), Raw("str", z)>>)) :
@@ -159,11 +159,20 @@ ManyPieces ==
 (* a slice of a many-piece rope that starts inside its first piece, adopted  *)
 (* as the rope of a ReplaceSource and sliced again by an enclosing one       *)
 ResliceTrees ==
-  IF Scope \notin {"c07"} THEN {} ELSE
+  IF Scope \notin {"c01", "c02", "c07", "c17"} THEN {} ELSE
   LET base == CC(<<Raw("str", <<cA, 98, 99>>), Raw("str", <<100, 101, 102>>)>>)
+      \* a slice that spans three and four pieces keeps pieces in between whole
+      \* (the first piece is cut by more than it keeps: offsets taken over from the uncut rope then
+      \* point past the end of the piece before them)
+      base4 == CC(<<Raw("str", <<cA, cA, cA, cA>>), Raw("str", <<98, 98>>), Raw("str", <<99, 99>>),
+                   Orig(<<100, 100>>)>>)
   IN {Replace(Replace(base, <<Repl(0, k, <<>>)>>), <<Repl(p, p + 1, <<cX>>)>>) : k \in 1..2, p \in 0..4}
      \cup {Replace(CC(<<Replace(base, <<Repl(0, k, <<>>)>>), Raw("str", <<103, 104>>)>>),
                     <<Repl(p, p, <<cX>>)>>) : k \in 1..2, p \in 0..6}
+     \cup {Replace(Replace(base4, <<Repl(0, 3, <<>>), Repl(e, e, <<cX>>)>>), <<Repl(p, p + k, <<cX>>)>>) :
+             e \in {7, 9}, p \in 0..7, k \in 0..1}
+     \cup {Replace(CC(<<Replace(base4, <<Repl(0, 2, <<>>), Repl(9, 10, <<>>)>>), Raw("str", <<103>>)>>),
+                    <<Repl(p, p, <<cX>>)>>) : p \in 0..8}
 
 (* a ReplaceSource as a child: what it reports as its end becomes the offset *)
 (* of the next child (trailing replacements with line breaks included)      *)
@@ -1085,7 +1094,10 @@ ProgSet ==
   CASE Scope \in {"c01", "c02"} -> {Prog(<<Build(t)>> \o StreamObs) : t \in TreesSmall}
     [] Scope = "c05" -> Hist2 \cup Hist3
     [] Scope = "c13" -> LawScope \cup LawScopeNamed \cup LawScopeTwice
-    [] Scope = "c17" -> C17Scope
+    \* the content views of composite trees whose replacements sit on character boundaries
+    \* (the c07 scope without its binary leaves: a position inside a character is outside C17's domain)
+    [] Scope = "c17" -> C17Scope \cup {Prog(<<Build(t)>> \o ViewObs(9)) :
+                                        t \in Pairs \cup ReplOverLeaf2 \cup Wrapped \cup ManyPieces \cup ResliceTrees}
     [] Scope = "c04" -> C04Scope
     [] Scope = "c06" -> C06Scope
     [] Scope = "c06r" -> C06RScope
